@@ -4602,6 +4602,8 @@ class ResponseFuture(object):
             # TODO get connectTimeout from cluster settings
             connection, request_id = pool.borrow_connection(timeout=2.0)
             self._connection = connection
+            # keep the stream id in step with the connection: _on_timeout orphans (connection, _req_id)
+            self._req_id = request_id
             result_meta = self.prepared_statement.result_metadata if self.prepared_statement else []
 
             if cb is None:
